@@ -96,3 +96,71 @@ Definition total_case_ok (c : vcase) : bool :=
   | Raise e, Raise e' => eq_exn e e'
   | _, _ => false
   end.
+
+(* ---- structural identity of schemas (floats bitwise, bool/int literals kept apart,
+        patterns by source text, dict entries in order) ---- *)
+Definition ofloat_same := option_eqb same.
+Definition ointv_same := option_eqb intv_same.
+Definition ostr_same := option_eqb str_eqb.
+
+Fixpoint schema_same (a b : schema) {struct a} : bool :=
+  match a, b with
+  | SNone, SNone => true
+  | SBool x, SBool y => option_eqb Bool.eqb x y
+  | SInt v1 a1 b1, SInt v2 a2 b2 => ointv_same v1 v2 && ointv_same a1 a2 && ointv_same b1 b2
+  | SFloat v1 a1 b1 p1, SFloat v2 a2 b2 p2 =>
+      ofloat_same v1 v2 && ofloat_same a1 a2 && ofloat_same b1 b2 && ointv_same p1 p2
+  | SStr v1 l1 a1 b1 al1 s1 p1, SStr v2 l2 a2 b2 al2 s2 p2 =>
+      ostr_same v1 v2 && ointv_same l1 l2 && ointv_same a1 a2 && ointv_same b1 b2 &&
+      ostr_same al1 al2 && ostr_same s1 s2 &&
+      option_eqb (fun x y => str_eqb (fst x) (fst y)) p1 p2
+  | SList es1 t1 l1 a1 b1, SList es2 t2 l2 a2 b2 =>
+      match es1, es2 with
+      | None, None => true
+      | Some x, Some y =>
+          (fix go (x y : list (option schema)) : bool :=
+             match x, y with
+             | [], [] => true
+             | None :: x', None :: y' => go x' y'
+             | Some u :: x', Some w :: y' => schema_same u w && go x' y'
+             | _, _ => false end) x y
+      | _, _ => false end &&
+      match t1, t2 with
+      | None, None => true
+      | Some u, Some w => schema_same u w
+      | _, _ => false end &&
+      ointv_same l1 l2 && ointv_same a1 a2 && ointv_same b1 b2
+  | SDict k1, SDict k2 =>
+      match k1, k2 with
+      | None, None => true
+      | Some x, Some y =>
+          (fix go (x y : list dentry) : bool :=
+             match x, y with
+             | [], [] => true
+             | (ka, sa, oa) :: x', (kb, sb, ob) :: y' =>
+                 key_eqb ka kb && Bool.eqb oa ob &&
+                 match sa, sb with
+                 | None, None => true
+                 | Some u, Some w => schema_same u w
+                 | _, _ => false end && go x' y'
+             | _, _ => false end) x y
+      | _, _ => false end
+  | SAny t1, SAny t2 =>
+      match t1, t2 with
+      | None, None => true
+      | Some x, Some y =>
+          (fix go (x y : list schema) : bool :=
+             match x, y with
+             | [], [] => true
+             | u :: x', w :: y' => schema_same u w && go x' y'
+             | _, _ => false end) x y
+      | _, _ => false end
+  | SBytes x, SBytes y => option_eqb (list_eqb N.eqb) x y
+  | SUuid x, SUuid y => option_eqb N.eqb x y
+  | SDatetime x, SDatetime y =>
+      option_eqb (fun p q => Bool.eqb (fst p) (fst q) && Z.eqb (snd p) (snd q)) x y
+  | SDate x, SDate y => option_eqb value_same x y
+  | SAlias n1 t1, SAlias n2 t2 => ostr_same n1 n2 && schema_same t1 t2
+  | SCustom t1, SCustom t2 => schema_same t1 t2
+  | _, _ => false
+  end.
